@@ -128,6 +128,58 @@ class ConcCtx(object):
             self.cpos += 1
         return c if isinstance(options, int) else options[c]
 
+    # -- structured inputs (stdlib values)
+    def date(self, name, ymin=1, ymax=9999):
+        import datetime
+        y, m, d = self.int(name + '_y', ymin, ymax), self.int(name + '_m', 1, 12), self.int(name + '_d', 1, 31)
+        try:
+            return datetime.date(y, m, d)
+        except ValueError:
+            raise ConcAbort('invalid date')
+
+    def time(self, name):
+        import datetime
+        return datetime.time(self.int(name + '_H', 0, 23), self.int(name + '_M', 0, 59),
+                             self.int(name + '_S', 0, 59), self.int(name + '_us', 0, 999999))
+
+    def datetime(self, name, tz='naive', ymin=1, ymax=9999, offset_range=(-840, 840)):
+        import datetime, pytz
+        y, m, d = self.int(name + '_y', ymin, ymax), self.int(name + '_m', 1, 12), self.int(name + '_d', 1, 31)
+        H, M, S, us = (self.int(name + '_H', 0, 23), self.int(name + '_M', 0, 59),
+                       self.int(name + '_S', 0, 59), self.int(name + '_us', 0, 999999))
+        tzinfo = None
+        if tz == 'utc':
+            tzinfo = pytz.utc
+        elif tz == 'offset':
+            tzinfo = pytz.FixedOffset(self.int(name + '_off', *offset_range))
+        try:
+            return datetime.datetime(y, m, d, H, M, S, us, tzinfo)
+        except ValueError:
+            raise ConcAbort('invalid datetime')
+
+    def timedelta(self, name, maxdays=999999999):
+        import datetime
+        return datetime.timedelta(days=self.int(name + '_days', -maxdays, maxdays),
+                                  seconds=self.int(name + '_s', 0, 86399),
+                                  microseconds=self.int(name + '_us', 0, 999999))
+
+    def decimal(self, name, ndigits, exp):
+        import decimal
+        neg = self.bool(name + '_neg')
+        digs = self.digits(name + '_digits', ndigits)
+        if ndigits > 1 and digs[0] == '0':
+            raise ConcAbort('leading zero')
+        return decimal.Decimal(('-' if neg else '') + digs + 'E%d' % exp)
+
+    def offset_minutes(self, dt):
+        off = dt.utcoffset()
+        if off is None:
+            return None
+        return off.days * 1440 + off.seconds // 60
+
+    def td_microseconds(self, td):
+        return (td.days * 86400 + td.seconds) * 1000000 + td.microseconds
+
     # -- control
     def assume(self, c):
         if not c:
